@@ -55,14 +55,14 @@ def gen_histories(ctx):
     for n in range(1, L + 1):
         for combo in itertools.product(msgs, repeat=n):
             hs.append(list(combo))
-    extra_n = 250 if ctx.quick() else 3000
+    extra_n = 250 if ctx.quick() else 12000
     for _ in range(extra_n):
         hs.append([rng.choice(msgs) for _ in range(L + 1)])
     out = []
     for h in hs:
         out.append([(k, u, i + 1, TEXTS[ti]) if k == 'open' else (k, u, i + 1, [TEXTS[ti]]) for i, (k, u, ti) in enumerate(h)])
     # random longer histories with unrelated traffic and multi-change / empty-change notifications
-    for _ in range(40 if ctx.quick() else 400):
+    for _ in range(40 if ctx.quick() else 1500):
         n = rng.randint(5, 40)
         h = []
         rid = 1
